@@ -273,6 +273,7 @@ func VerifLoadDataset(dataset *VerifDataset, scratch string) (*VerifInstance, er
 		lmd.Config.GroupAuthorization = dataset.GroupAuth
 		lmd.Config.SetGroupAuthorization()
 	}
+	lmd.Config.StaleBackendTimeout = 1000000000
 	lmd.flags.flagImport = filepath.Join(scratch, "sites")
 	lmd.nodeAccessor = NewNodes(lmd, []string{}, "")
 	if err := initializePeersWithImport(lmd, filepath.Join(scratch, "sites")); err != nil {
@@ -285,6 +286,10 @@ func VerifLoadDataset(dataset *VerifDataset, scratch string) (*VerifInstance, er
 		if peer == nil {
 			return nil, fmt.Errorf("backend %s missing after import", backend.ID)
 		}
+		// the imported peers have no backend behind them.  A request with Wait headers makes lmd refresh the peer first,
+		// which fails here: the data must survive that (a peer that was never online, or long ago, is dropped at the first
+		// error), so the peers count as just synchronised and the stale timeout is out of reach
+		peer.lastOnline.Set(currentUnixTime())
 		switch backend.State {
 		case "", "up":
 		case "warning":
@@ -335,6 +340,7 @@ type VerifQueryResult struct {
 	Raw     string `json:"raw"` // full bytes as written by Response.send (header + body + newline)
 	Err     string `json:"err"`
 	Reprint string `json:"reprint"` // Request.String() of the parsed request
+	SubErr  string `json:"sub_err"` // what the parser says to the request data a cluster node generates from this request
 }
 
 // VerifQuery parses and answers one request text through NewRequest / ExpandRequestedBackends / BuildResponse / send.
@@ -373,6 +379,8 @@ func (inst *VerifInstance) VerifQuery(text string, optimize bool) (result *Verif
 		return result
 	}
 	result.Reprint = req.String()
+	// (asked last: building the request data must not get a chance to touch the request before it is answered)
+	defer func() { result.SubErr = verifSubRequestError(req) }()
 	res, err := req.BuildResponse(ctx)
 	if err != nil {
 		// mirrors ClientConnection.processRequest
@@ -401,6 +409,26 @@ func (inst *VerifInstance) VerifQuery(text string, optimize bool) (result *Verif
 	result.Body = body
 
 	return result
+}
+
+// verifSubRequestError builds the request data a cluster node sends to its partners for this request
+// (buildDistributedRequestData), reads it back like the receiving node does and returns the parser's verdict.
+func verifSubRequestError(req *Request) (msg string) {
+	defer func() {
+		if r := recover(); r != nil {
+			msg = fmt.Sprintf("panic: %v", r)
+		}
+	}()
+	backends := make([]string, 0, len(req.BackendsMap))
+	for id := range req.BackendsMap {
+		backends = append(backends, id)
+	}
+	sort.Strings(backends)
+	if _, err := req.localSubRequest(backends); err != nil {
+		return err.Error()
+	}
+
+	return ""
 }
 
 // VerifSetPeerFlags overrides the flags of a peer.
